@@ -1008,7 +1008,7 @@ def evaluate__compare(self: XPathFunction, context: ta.ContextType = None)\
     if len(self) < 3:
         collation = self.parser.default_collation
     else:
-        collation = self.get_argument(context, 2, required=True)
+        collation = self.get_argument(context, 2, required=True, cls=str)
 
     with CollationManager(collation, self) as manager:
         value = manager.strcoll(comp1, comp2)
